@@ -108,6 +108,38 @@ def _multi_line_group(cat, y, fr, g, members, rep, key0):
     return True
 
 
+def template_identity(tree, cat, rep, rule):
+    """The blank a form is filled into is that form's own blank of that year.  The federal templates carry an XMP title
+    "<year> <designation>" ("2023 Form 8959", "2022 Schedule 1 (Form 1040)") and the form class states the same designation
+    in `description`; the NC templates have no usable title, but their heading is the first text chunk of the page that
+    equals a designation of the year's catalogue.  (The field names of the federal blanks follow one numbering scheme,
+    so a wrong blank accepts the form data without any complaint from the PDF tool.)"""
+    n = 0
+    for y in cat.years:
+        descs = {fr.class_attrs.get('description') for fr in cat.forms(y) if isinstance(fr.class_attrs.get('description'), str)}
+        for fr in cat.forms(y):
+            if fr.rec is None or not isinstance(fr.pdf_file, str):
+                continue
+            rel = os.path.relpath(fr.pdf_file, tree.root)
+            if not tree.exists(rel):
+                continue                      # reported by R18.1
+            tp = load_template(tree, rel)
+            want = fr.class_attrs.get('description')
+            title = tp.title()
+            n += 1
+            key = f'{y}/{fr.name}/template-is-this-forms-blank'
+            if title and re.match(r'(19|20)\d\d\s', title):
+                got = ' '.join(title.split())
+                ok = got == f'{y} {want}'
+                rep.ob(rule, key, ok, f'{fr.name} ({want}, tax year {y}) is filled into {rel}, whose title says it is the blank of "{got}"', fr.where)
+            else:
+                heading = next((c.strip() for c in tp.page_text().split('\n') if c.strip() in descs), None)
+                if heading is None:
+                    raise AnalysisError(f'{rel}: neither a title nor a heading naming a catalogued form was found in the template')
+                rep.ob(rule, key, heading == want, f'{fr.name} ({want}) is filled into {rel}, whose heading says it is the blank of "{heading}"', fr.where)
+    rep.floor('templates identified by title or heading', n, 40)
+
+
 def check(tree, rep, tier='quick', seed=0):
     rep.explanation = ('Agreement between two static artifacts: the pdf_fields table of every form (statically evaluated '
                        'constructors) and the field tree / XFA accessibility text / export values / length limits parsed from '
@@ -118,6 +150,7 @@ def check(tree, rep, tier='quick', seed=0):
     rep.assumptions = ['the stdlib PDF reader sa/pdfx.py parses the templates faithfully (all mapped names must be found, floors on field counts)',
                        'label exceptions confirmed by reading are frozen one per template field in sa/data/label_exceptions.json']
     cat = get_catalogue(tree)
+    template_identity(tree, cat, rep, 'R18.10')
     exceptions = load_data('label_exceptions.json')
     exc = {(e['form'], e['field'], e['line']): e for e in exceptions}
     used_exc = set()
